@@ -27,13 +27,15 @@ from props._contracts import polygon_contract_scenarios, scn_polygon_contract  #
 
 PROPERTY = 'C15'
 CONFIGS = [('CFGrid1D', {}), ('CFGrid2D', {}), ('ShocStandard', {}), ('UGrid', {'edges': 'none'}),
+           # data stored ahead of the coordinates with x before y: Dataset.sizes lists the dimensions in another order than the grid's (y, x)
+           ('CFGrid1D', {'leading': ('lon', 'lat')}),
            ('ShocSimple', {'bounds': True}), ('CFGrid2D', {'bounds': 'coords'}), ('UGrid', {'edges': 'both'}), ('CFGrid1D', {'bounds': True})]      # the last four: thorough tier
 MOD = 'emsarray.operations.geometry'
 
 
 def scenarios(tier):
     out = []
-    for ci, cfg in enumerate(CONFIGS if tier == 'thorough' else CONFIGS[:4]):
+    for ci, cfg in enumerate(CONFIGS if tier == 'thorough' else CONFIGS[:5]):
         out.append({'name': f'to_geojson[{cfg[0]} {cfg[1]}]', 'fn': 'scn_geojson', 'kwargs': {'ci': ci}})
         out.append({'name': f'write_shapefile[{cfg[0]} {cfg[1]}]', 'fn': 'scn_shapefile', 'kwargs': {'ci': ci}})
         out.append({'name': f'write_wkt / write_wkb[{cfg[0]} {cfg[1]}]', 'fn': 'scn_wk', 'kwargs': {'ci': ci}})
